@@ -60,12 +60,13 @@ def _gen_file(rng, wellformed):
     for si in range(nsym):
         kind = rng.choice(["F", "F", "F", "P"])
         if kind == "P":
-            lines.append("PUBLIC %s%x %x pub%d" % ("m " if rng.chance(1, 8) else "", addr, rng.below(16), si))
+            lines.append("PUBLIC %s%x %x %s" % ("m " if rng.chance(1, 8) else "", addr, rng.below(16), ("pub%d" % si) if not rng.chance(1, 10) else rng.choice(["", " ", "x y"])))
             lookups += [addr, addr + 1]
             addr += rng.range(1, 0x40)
         else:
             size = rng.range(1, 0x60)
-            lines.append("FUNC %s%x %x %x fn%d%s" % ("m " if rng.chance(1, 8) else "", addr, size, rng.below(32), si, rng.choice(["", "(int)", " const"])))
+            fname = "fn%d%s" % (si, rng.choice(["", "(int)", " const"])) if not rng.chance(1, 10) else rng.choice(["", " ", "a  b", "operator()(int, char const*) const", "\t"])
+            lines.append("FUNC %s%x %x %x %s" % ("m " if rng.chance(1, 8) else "", addr, size, rng.below(32), fname))
             lookups += [addr, addr + size - 1, addr + size, addr + size // 2]
             # inline records: per depth a set of disjoint ranges, spread over 1..3 INLINE records per depth (a record may carry several ranges, in any
             # order; the ranges of different records interleave), deeper ranges nested in shallower ones; the records are written in any order
@@ -158,6 +159,23 @@ def _gen_file(rng, wellformed):
                 lines[li] = " ".join([f[0], pad(f[1], 10)] + f[2:])
             elif len(f) == 4 and f[0] and all(c in "0123456789abcdefABCDEF" for c in f[0]) and f[2].isdigit() and f[3].isdigit():
                 lines[li] = " ".join([pad(f[0], 16), pad(f[1], 8), pad(f[2], 10), pad(f[3], 10)])
+    if rng.chance(1, 8):
+        # field separators other than one space: the FILE / INLINE_ORIGIN / PUBLIC / FUNC / MODULE parsers (nom space1) take runs of spaces and
+        # tabs, the line-record and INLINE tokenizer takes runs of spaces only
+        for li, l in enumerate(lines):
+            f = l.split(" ")
+            if len(f) < 2 or not rng.chance(1, 3):
+                continue
+            nsep = {"FUNC": 4, "PUBLIC": 3, "FILE": 2, "INLINE_ORIGIN": 2, "MODULE": 4}.get(f[0], len(f) - 1)
+            if len(f) > 1 and f[1] == "m":
+                nsep += 1
+            o = f[0]
+            for k in range(1, len(f)):
+                sep = rng.choice(["\t", "  ", " \t", "\t ", " "]) if k <= nsep else " "
+                if f[0] == "MODULE" and k == 1 and sep[0] == "\t" and not rng.chance(1, 4):
+                    sep = " " + sep                 # mostly keep the magic bytes "MODULE " that make it a .sym file
+                o += sep + f[k]
+            lines[li] = o
     out = ""
     for i, l in enumerate(lines):
         e = eol if not mixed else rng.choice(["\n", "\r\n"])
@@ -205,10 +223,8 @@ def _parse_lookup(tok):
     fr = fr.rstrip("]")
 
     def bs(s):
-        s = s.replace("\\s", " ").replace("\\r", "\r")
-        if s == '""':
-            s = ""
-        return K.coq_list([str(b) for b in s.encode("latin-1")])
+        # "x" + hex of the bytes (harness h_symbols/src/bp.rs esc)
+        return K.coq_list([str(b) for b in bytes.fromhex(s[1:])])
 
     def ob(s):
         return "None" if s == "-" else "(Some %s)" % bs(s)
@@ -259,7 +275,11 @@ def evaluate(cases):
         idx = kv["IDX"]
         idxb = "None" if idx == "ERR" else "(Some %s)" % K.coq_list([str(int(idx[i:i + 2], 16)) for i in range(0, len(idx), 2)])
         lks = [x for x in rest.split(" | ")] if rest.strip() else []
-        if lks == ["MAPERR"] or len(lks) != len(c["items"]):
+        if lks == ["MAPERR"] and not c["text"].startswith("MODULE "):
+            # is_breakpad_file (breakpad/mod.rs MAGIC_BYTES) wants the seven bytes "MODULE " at offset 0: without them the file is not taken
+            # for a .sym file at all and no symbol map is the expected outcome (with and without a stored index alike)
+            pairs = []
+        elif lks == ["MAPERR"] or len(lks) != len(c["items"]):
             pairs = [] if idx == "ERR" else [(c["items"][0] if c["items"] else 0, "LPanic")]
         else:
             pairs = [(a, _parse_lookup(t)) for a, t in zip(c["items"], lks)]
